@@ -129,7 +129,7 @@ def audit_axioms(prop, names):
     if os.path.exists(cache_path):
         try:
             c = json.load(open(cache_path))
-            if c.get('key') == key and set(c['axioms']) == set(names):
+            if c.get('key') == key and set(c['axioms']) == set(names) and all(v is not None for v in c['axioms'].values()):
                 return c['axioms'], True
         except Exception:
             pass
@@ -143,9 +143,9 @@ def audit_axioms(prop, names):
     out = r.stdout + r.stderr
     res = {n: None for n in names}
     # "'name' depends on axioms: [a, b]"  /  "'name' does not depend on any axioms"
-    for m in re.finditer(r"'([^']+)' depends on axioms: \[([^\]]*)\]", out, re.S):
+    for m in re.finditer(r"'(\S+)' depends on axioms: \[([^\]]*)\]", out, re.S):
         res[m.group(1)] = [a.strip() for a in m.group(2).replace('\n', ' ').split(',') if a.strip()]
-    for m in re.finditer(r"'([^']+)' does not depend on any axioms", out):
+    for m in re.finditer(r"'(\S+)' does not depend on any axioms", out):
         res[m.group(1)] = []
     if r.returncode == 0:
         json.dump({'key': key, 'axioms': res}, open(cache_path, 'w'))
